@@ -153,6 +153,10 @@ def main_(seed, nscen):
             if st == "hang":
                 report["problems"].append(dict(desc, kind="upload_hang", what="the upload neither succeeded nor failed within 60 s"))
                 return
+            yield task.deferLater(reactor, 0.01, lambda: None)
+            left = [(i, g.servers[i].allocated_size()) for i in range(S) if fates[i] != "broken" and g.servers[i].allocated_size()]
+            if left:
+                note("upload %s left space reserved on servers that answer: %r %r" % (st, [fates[i] for i, _ in left], [x for _, x in left]))
             failing = [f for f in fates if f not in ("ok", "readonly", "full")]
             if st == "done":
                 report["uploads_ok"] += 1
